@@ -739,6 +739,10 @@ def _family_fn(ref, doms):
         out = {TARGET: m}
         for d in doms:
             if d["population"] == TARGET:
+                if d["policy"]:
+                    # an experiment run in the target population: the only data tagged pi* that the caller has, so that
+                    # is what a PP[pi*] term of the answer stands for (the truth is still computed in m itself)
+                    out[TARGET] = m.redraw([], rng, cut_parents=sorted(d["policy"]))
                 continue
             out[d["population"]] = m.redraw(sorted(d["transport"]), rng, cut_parents=sorted(d["policy"]))
         return out
@@ -755,8 +759,13 @@ def _domains_follow_convention(ref: RG, doms) -> bool:
         want_bi = sorted(sorted(e) for e in g.B if len(e) == 2 and not (set(e) & Z))
         if d["graph"]["di"] != want_di or d["graph"]["bi"] != want_bi or set(d["graph"]["nodes"]) != set(g.V):
             return False
-        if d["population"] == TARGET and (Z or d["transport"]):
+        if d["population"] == TARGET and d["transport"]:
             return False
+    # data tagged pi*: the observational target distribution, or ONE experiment in the target population - with both
+    # (or several experiments) a PP[pi*] term of the answer would not say which table it means
+    stars = [d for d in doms if d["population"] == TARGET]
+    if any(d["policy"] for d in stars) and len(stars) > 1:
+        return False
     return True
 
 
